@@ -66,13 +66,10 @@ def width(conn: Connectable, failer: Callable = fail) -> int:
 def ref_width(ref: Union[PortRef, BundleRef], failer: Callable = fail) -> int:
     """Get a reference's width from its referent.
     Fail if this resolves to a Bundle Instance.
-    And cache the result on the Ref for future use.
+    (Not cached: the referent's width can be edited.)
 
     Optional function-valued argument `failer` is passed all errors.
     This is commonly used to pass failure information and control back to `ElabPass`s."""
-
-    if ref._width is not None:
-        return ref._width
 
     # Get the referent
     if isinstance(ref, BundleRef):
@@ -88,8 +85,7 @@ def ref_width(ref: Union[PortRef, BundleRef], failer: Callable = fail) -> int:
 
     # And get its width
     if isinstance(referent, Signal):
-        ref._width = width(referent, failer)
-        return ref._width
+        return width(referent, failer)
     if isinstance(referent, BundleInstance):
         return failer(f"Invalid `width` of Bundle {referent}")
     return failer(f"Invalid `width` of {referent}")
